@@ -109,28 +109,7 @@ def run(ctx):
         w = cr.find_path([0], cr.return_blocks(), removed=set(gate), removed_edges=some) if some and gate else ['?']
         ctx.ob('2f later-commits-refused', 'K1-must-pass', cr.path, 'with a background error recorded every path through commit_raw returns Error::Background', w is None, '' if w is None else lib.short_path(cr, w))
     # ------------------------------------------------------------ 2g. which I/O error may be taken for "end of data"
-    EOF = None
-    for a in F.raw['adts']:
-        pass
-    def eof_guarded(fn, site, label, desc):
-        b = F.body(fn)
-        kinds = lib.errkind_guarded(b, site)
-        ctx.ob(label, 'K3-guard', fn, desc, kinds == {'UnexpectedEof'}, 'guarded by error kinds: %s' % (sorted(kinds) or 'none'), b.loc(site))
-    rn = ctx.body('log::Log::read_next')
-    if rn:
-        pushes = lib.field_effect_sites(rn, ['re:VecDeque.*::push_back$'], '.Log.cleanup_queue')
-        ctx.ob('2g0 end-of-log-anchor', 'anchor', rn.path, 'read_next retires a finished log file onto the cleanup queue', len(pushes) >= 1, str(pushes))
-        for s in pushes:
-            eof_guarded(rn.path, s, '2g log-retired-only-on-eof', 'a log file is declared fully read (queued for truncation) only on the equal edge of io::Error::kind() == UnexpectedEof; any other read error is returned')
-    ol = ctx.body('log::Log::open_log_file')
-    if ol:
-        nones = [bi for bi in ol.normal_blocks() for st in ol.blocks[bi]['s'] if st['k'] == 'assign' and st['r']['k'] == 'agg' and st['r']['ak'] == 'Adt:std::option::Option::None']
-        kd = ol.call_sites('std::io::Error::kind')
-        ctx.ob('2h0 headerless-log-anchor', 'anchor', ol.path, 'open_log_file reports "no first record" (file deleted at open) in two places and inspects the error kind', len(nones) == 2 and len(kd) == 1, '%s %s' % (nones, kd))
-        rd = ol.call_sites('log::Log::read_first_record_id')
-        for s in nones:
-            if rd and s in ol.reaches(rd[0]):
-                eof_guarded(ol.path, s, '2h headerless-only-on-eof', 'a log file is treated as header-less (and deleted by Log::open) after a failed header read only when the error kind is UnexpectedEof')
+    shared.eof_is_the_only_end_of_data(ctx, '2')
     # ------------------------------------------------------------ 3. informational: I/O calls outside try_io!
     out = []
     for b in F.bodies.values():
